@@ -425,7 +425,21 @@ func c04Judge(c *Case, r *Result, base *Result) []Violation {
 		if base != nil && len(cs.cc.Faults) > 0 && i < len(base.Conns) {
 			bt := invocationTrace(base.Conns[i])
 			ft := invocationTrace(cs)
-			if !strings.HasPrefix(bt, ft) {
+			// (a handler that reads client input itself - COPY - consumes the
+			// messages behind it in the intact run; when the fault keeps it from
+			// starting the COPY, those messages are ordinary messages and are
+			// rightly handled as such: found by a 5.9 million-run thorough batch)
+			readsInput := false
+			for _, p := range c.Programs {
+				for _, sp := range p.Stmts {
+					for _, op := range sp.Ops {
+						if op.K == "copyin" {
+							readsInput = true
+						}
+					}
+				}
+			}
+			if !strings.HasPrefix(bt, ft) && !readsInput {
 				add("fabricated-callback", "fabricated-callback "+cs.cc.Faults[0].Kind, fmt.Sprintf("conn %d with fault %+v ran callbacks the fault-free session never ran:\n  faulted: %s\n  intact:  %s", i, cs.cc.Faults[0], trunc(strings.ReplaceAll(ft, "\n", "; "), 300), trunc(strings.ReplaceAll(bt, "\n", "; "), 300)))
 			}
 			inputOnly := true
